@@ -115,7 +115,7 @@ def build_api(ch, coder=None, order=None, transitions=None, klass=None):
     tmap = {}
     for t in (transitions or ch['transitions']):
         tr = Transition(t['source'], t['target'], event=t['event'], guard=coder.guard(ch, t),
-                        action=coder.action(ch, t), priority=t['priority'])
+                        action=coder.action(ch, t), priority=int(str(t['priority'])))       # (a fresh int object: equal priorities need not be identical objects)
         for kind, attr in (('pre', 'preconditions'), ('post', 'postconditions'), ('inv', 'invariants')):
             for cid in t['contracts'][kind]:
                 getattr(tr, attr).append(coder.cond(ch, True, cid, kind))
@@ -258,7 +258,7 @@ def build_edited(ch, rnd, coder=None):
         except Exception:       # noqa – the intermediate chart may be unsound; only the caches matter here
             pass
     done = []
-    for op in rnd.sample(['move', 'rename', 'junk', 'move', 'readd'], k=rnd.randint(1, 3)):
+    for op in rnd.sample(['move', 'rename', 'junk', 'move', 'readd', 'rotate'], k=rnd.randint(1, 3)):
         names = [n for n in ch['order'] if n != ch['root']]
         if not names:
             break
@@ -292,6 +292,26 @@ def build_edited(ch, rnd, coder=None):
                 if s_['memory'] == x:
                     sc.state_for(n).memory = x
             done.append(('readd', x))
+            continue
+        if op == 'rotate':
+            # a transition (preferably the later one of two equal ones) is given another source / target and then its own again
+            ts = list(sc.transitions)
+            if not ts:
+                continue
+            later_twins = [t for i, t in enumerate(ts) if any(t == o for o in ts[:i])]
+            t = rnd.choice(later_twins) if later_twins and rnd.random() < 0.8 else rnd.choice(ts)
+            src, tgt = t.source, t.target
+            srcs = [n for n in ch['order'] if n != src and st[n]['kind'] in ('basic', 'compound', 'orthogonal')]
+            if not srcs:
+                continue
+            if rnd.random() < 0.4:
+                warm()
+            sc.rotate_transition(t, new_source=rnd.choice(srcs))
+            warm()
+            if rnd.random() < 0.5:
+                sc.rotate_transition(t, new_target=rnd.choice(ch['order']))
+            sc.rotate_transition(t, new_source=src, new_target=tgt)
+            done.append(('rotate', tmap[id(t)]))
             continue
         if op == 'move':
             m = rnd.choice(composite if composite and rnd.random() < 0.8 else names)
@@ -349,6 +369,11 @@ def build_edited(ch, rnd, coder=None):
             return None
     if sorted(sc.states) != sorted(st) or len(sc.transitions) != len(ch['transitions']):
         return None
+    byid = {t['id']: t for t in ch['transitions']}
+    for t in sc.transitions:
+        d = byid[tmap[id(t)]]
+        if (t.source, t.target) != (d['source'], d['target']):
+            return None
     sc.validate()
     return sc, tmap, done
 
